@@ -49,7 +49,10 @@ claim("C14",
       "Tie: translator of the codec's source shapes with per-run obligations Obl/CodecDescOk.v (match arms of from_dict, "
       "dataclass fields and defaults, from_dict = cls(**data), __eq__/__hash__ bodies, ActionType.from_string) and a "
       "differential run of encoder, decoder, equality and hash on 9 types x all 256 key subsets plus a malformed stream "
-      "(>7000 cases quick), evaluated by vm_compute inside Coq; a direct round-trip/equality monitor supplies failing inputs.",
+      "(>7000 cases quick), evaluated by vm_compute inside Coq; a direct round-trip/equality monitor supplies failing inputs; "
+      "a wire probe sends actions with awkward legal texts (the letters of the end-of-message marker, quotes, backslashes, "
+      "braces, non-ASCII) through the real AgentServer read loop and dispatcher and compares the actions the game recorded "
+      "with the ones sent (value and hash); bogus type names must be refused there too.",
       "Trusted: Coq kernel + VM; translator harness/translate/codec.py; Python's json and ipaddress libraries enter as "
       "premises / as the IPv4-only validity function Model/Ipv4Text.v (IPv6 texts and ill-typed field values are outside "
       "the model); hand-written model tied by differential execution.",
@@ -104,7 +107,8 @@ claim("C08",
       "on the world model, Model/Game.v): C08_whole_game (whatever was played by however many agents in whatever interleaving, the "
       "reset task leaves exactly the pristine scenario world), C08_whole_game_static. Tie: correspondence on multi-episode walks "
       "with resets (tables compared with the model after every reset) and a monitor comparing the implementation's tables after "
-      "each reset with their initial condition.", W_NOTE + " Static addresses only (dynamic re-labelling is C13).", W_TECH, "DESIGN.md section 7, C08")
+      "each reset with their initial condition (in the coordinator sessions also under dynamic addresses, read back through the "
+      "published address map).", W_NOTE + " The theorems are for static addresses (dynamic re-labelling is C13).", W_TECH, "DESIGN.md section 7, C08")
 claim("C11",
       "Rocq theorems over all interleaved action sequences of any number of agents: C11_invariant (every view stays well-formed: "
       "controlled <= known hosts, services only for known hosts, data only on controlled hosts; and anchored: hosts exist, services "
@@ -179,7 +183,9 @@ claim("C07",
       "C07_voluntary (an agent that has not asked keeps its whole record across any run of the reset task), C07_fresh, C07_done; across labels: C07_request_stays (a registered request stays registered until the reset task runs or "
       "the agent leaves), C07_request_handler (in every reachable state a registered request has its handler waiting for the "
       "reset), C07_unmet (an idle RESET_DONE wait coexists with an agent that has not asked), C07_cleared_by_reset. "
-      "Monitor: reset steps and foreign changes of steps/view/end flag in every task step.", C_NOTE, C_TECH, "DESIGN.md section 7, C07")
+      "Monitor: reset steps and foreign changes of steps/view/end flag in every task step; at every effective reset the hosts an "
+      "agent controls in its fresh view exist in the current (possibly re-labelled) world and the world tables, read back "
+      "through the published address map, equal the pristine ones.", C_NOTE, C_TECH, "DESIGN.md section 7, C07")
 claim("C09",
       "Rocq theorems: C09_garbage / C09_reject (every bad request - garbage, second join, join without agent_info or with an unknown "
       "role, game/reset before joining, invalid parameters - is answered BAD_REQUEST), C09_frame (and changes nothing but the "
@@ -215,10 +221,19 @@ claim("C19",
       "by `read` on configuration trees - C19_absent_fallback, C19_present_value, C19_escapes, and per run (Obl/C19_model.v) "
       "C19_absent_gives_documented_default: for every getter of the source and EVERY configuration tree in which the key or a "
       "section on its path is missing, the getter returns the documented default - tied by running generated well-formed and "
-      "malformed trees through the real getters and through the model inside Coq. A full-stack probe with dynamic addresses "
+      "malformed trees through the real getters and through the model inside Coq. M5 part 2 (Model/ConfigParts.v): the section "
+      "readers and the start-position / win-condition assembly as functions on the configuration tree, error paths included - "
+      "C19_hosts_listed / C19_hosts_only (the parsed hosts are exactly the listed valid addresses and wildcards), "
+      "C19_networks_only, C19_data_keys, C19_data_items, C19_absent_parts_empty, and C19_config_to_view (from the configuration "
+      "TREE to the initial view: every valid address listed under controlled_hosts is controlled and known, 'all_local' gives "
+      "every private address, listed known hosts and well-formed networks are known) - tied by the section-reader "
+      "correspondence (generated trees through the real get_player_start_position / get_player_win_conditions and through the "
+      "model inside Coq; parsed parts or the escaping exception must agree). A full-stack probe with dynamic addresses "
       "checks that agents joining after re-labellings get the configured start position; a switch probe plays all 27 "
       "true/false/absent combinations of the global-defender, trajectory and firewall switches and checks each switch's "
-      "behaviour-level effect in every combination. The section readers (glue) are decided by correspondence: generated "
+      "behaviour-level effect in every combination; a goal probe plays one exfiltration script under five goals in two "
+      "delivery orders and compares the end flag after every answer with the reference subset check of the configured goal. "
+      "The section readers (glue) are decided by correspondence: generated "
       "configurations over all subsets of optional keys go through the real ConfigParser, start_tasks and joins; parsed start "
       "position / win condition are compared with the listed items, the join reply with the configuration, the initial view with "
       "the model inside Coq and with the statement (monitor). One known finding: the documented 'all_attackers' wildcard (D25).",
@@ -256,7 +271,8 @@ claim("C20",
       "encodings <-> equal views), so comparing decoded transcripts across processes is well defined. The property itself - "
       "independence of process, hash randomisation and wall-clock time, and the reproducible configuration hash - is a runtime "
       "property no executable model exhibits; it is decided by cross-process runs: identical multi-episode probe sessions (three attackers with random start hosts and a "
-      "defender, collective resets; also with the global defender on, so that its detection draws are part of the transcripts) "
+      "defender, collective resets, refused requests of every kind; also with the global defender on, so that its detection "
+      "draws are part of the transcripts) "
       "(static and dynamic addresses, all playable shipped scenarios, several seeds) in separate interpreter processes with "
       "different PYTHONHASHSEED values must give identical decoded transcripts, address maps and hashes; hashes must differ between "
       "scenarios. Labelled partial.",
